@@ -68,6 +68,13 @@ type (
 		Name string
 		verifProfile
 	}
+	// the embedded struct comes FIRST and is followed by further fields: positional
+	// mapping is depth-first in declaration order
+	verifEmbeddedFirst struct {
+		verifProfile
+		Name string
+		Rank int64
+	}
 )
 
 func verifRowOf(cols []string, name string, age, score, extra int64) []verifCell {
@@ -91,7 +98,7 @@ func Verif_C11_rows() {
 	name := verifStringN("name", 1)
 	age, score, extra := verifInt64("age"), verifInt64("score"), verifInt64("extra")
 	strict := verifChoose("strict", 2) == 1
-	switch verifCase(6) {
+	switch verifCase(7) {
 	case 0: // tagged struct: by column name, independent of column order, extra columns ignored
 		orders := [][]string{{"name", "age"}, {"age", "name"}, {"age", "extra", "name"}, {"extra", "name", "age"}}
 		cols := orders[verifChoose("order", 4)]
@@ -152,6 +159,16 @@ func Verif_C11_rows() {
 		verifAssert(err == nil, "pointer fields: a result with all (or more) columns maps without error")
 		verifAssert(dst.Name != nil && *dst.Name == name && dst.Age != nil && *dst.Age == age && dst.Nick == nick, "pointer fields and mixed-case tags are filled by column name, independent of column order")
 		verifReach("tagged-ptr")
+	case 6: // embedded struct first, further fields after it: Age, Score, Name, Rank by position
+		var dst verifEmbeddedFirst
+		cols := []string{"c1", "c2", "c3", "c4"}
+		row := []verifCell{{n: age}, {n: score}, {s: name}, {n: extra}}
+		err := unmarshalRow(&dst, &verifRows{cols: cols, rows: [][]verifCell{row}}, strict)
+		verifAssert(err == nil && dst.Age == age && dst.Score == score && dst.Name == name && dst.Rank == extra, "embedded first: the embedded struct's fields sit where it is embedded (depth-first, declaration order)")
+		var many []verifEmbeddedFirst
+		err = unmarshalRows(&many, &verifRows{cols: cols, rows: [][]verifCell{row}}, strict)
+		verifAssert(err == nil && len(many) == 1 && many[0].Age == age && many[0].Score == score && many[0].Name == name && many[0].Rank == extra, "embedded first: the same for a slice of such structs")
+		verifReach("embedded-first")
 	case 4: // empty result / slices
 		var one verifTagged
 		err := unmarshalRow(&one, &verifRows{cols: []string{"name", "age"}}, strict)
